@@ -14,8 +14,11 @@ Valid == {[e |-> EQ(1, 1), gb |-> <<>>], [e |-> AND(<<EQ(1, 1), NOTe(EQ(2, 2))>>
 Invalid == {[e |-> EQ(3, 1), gb |-> <<>>], [e |-> EQ(1, 1), gb |-> <<3>>],
             [e |-> H, gb |-> <<>>], [e |-> NOTe(H), gb |-> <<>>], [e |-> AND(<<EQ(1, 1), H>>), gb |-> <<>>], [e |-> AND(<<H, EQ(1, 1)>>), gb |-> <<1>>],
             [e |-> OR(<<NOTe(H), EQ(1, 1)>>), gb |-> <<>>], [e |-> NOTe(AND(<<H, H>>)), gb |-> <<>>], [e |-> OR(<<AND(<<EQ(1, 1), H>>), EQ(2, 1)>>), gb |-> <<>>]}
+EQP(c, v, n) == [op |-> "eq", col |-> c, val |-> v, ph |-> n]
+Unresolved == {[e |-> EQP(1, 1, 3), gb |-> <<>>], [e |-> AND(<<EQP(1, 1, 1), EQ(2, 2)>>), gb |-> <<2>>], [e |-> AND(<<EQP(1, 1, 2), NOTe(H)>>), gb |-> <<>>],
+               [e |-> OR(<<NOTe(AND(<<>>)), EQP(2, 1, 1)>>), gb |-> <<>>]}
 Odd == {[e |-> AND(<<>>), gb |-> <<>>], [e |-> OR(<<>>), gb |-> <<>>], [e |-> NOTe(AND(<<>>)), gb |-> <<>>], [e |-> AND(<<EQ(1, 1), OR(<<>>)>>), gb |-> <<1>>]}
-QSet == Valid \cup Invalid \cup Odd
+QSet == Valid \cup Invalid \cup Odd \cup Unresolved
 Ids == {0, 5}
 Batches == UNION {[1..k -> {[id |-> i, e |-> q.e, gb |-> q.gb] : i \in Ids, q \in QSet}] : k \in 0..MaxBatch}
 
@@ -36,5 +39,5 @@ PairLT(a, b) == a[1] < b[1]
 RowPairs(r) == SetToSortSeq({<<c, r[c]>> : c \in DOMAIN r}, PairLT)
 EmitAll == (Emit /\ nreq = 0) =>
   /\ PrintT(ToJson([tag |-> "setup", rows |-> [i \in DOMAIN Rows |-> RowPairs(Rows[i])]]))
-  /\ \A b \in Batches : PrintT(ToJson([tag |-> "batch", batch |-> b, reply |-> BatchReply(Rows, b)]))
+  /\ \A b \in Batches : PrintT(ToJson([tag |-> "batch", batch |-> b, replies |-> SetToSeq(BatchReplies(Rows, b))]))
 =============================================================================
